@@ -133,6 +133,14 @@ func families() []family {
 		// a tpl call that has produced output before it fails: nothing of it may survive into a later render
 		c.Templates = append(c.Templates, f("templates/tf.yaml", cm("tf", `  o: {{ tpl "partial-output-{{ fail \"inner failure\" }}" . | quote }}`+"\n")))
 	}
+	listItems := func(c *chart.Chart) {
+		// a template that edits the items of a list of tables from the chart's defaults: every render must
+		// start from the chart's defaults, not from what an earlier render of the same chart object left there
+		c.Values["containers"] = []any{map[string]any{"name": "app"}, map[string]any{"name": "side"}}
+		c.Templates = append(c.Templates, f("templates/li.yaml",
+			`{{- range .Values.containers }}{{ $_ := set . "name" (printf "%s-%s" $.Release.Name .name) }}{{ end -}}`+"\n"+
+				cm("li", "  names: {{ .Values.containers | toJson | quote }}\n")))
+	}
 	caps := func(c *chart.Chart) {
 		c.Templates = append(c.Templates, f("templates/caps.yaml", cm("caps", "  hasA: {{ .Capabilities.APIVersions.Has \"verif.a/v1\" | quote }}\n  hasB: {{ .Capabilities.APIVersions.Has \"verif.b/v1\" | quote }}\n  kube: {{ .Capabilities.KubeVersion.Version | quote }}\n  rel: {{ .Release.Name | quote }}\n")))
 	}
@@ -145,7 +153,7 @@ func families() []family {
 			return c
 		}
 	}
-	single := map[string]func(*chart.Chart){"tpl-fails-midway": tplFails, "two-failing": twoFailing, "cross-file-values": crossFile, "capabilities": caps, "multi-kind": multiKind, "dup-define": dupDefine, "notes": notes, "tpl-include": tplInclude, "files": files,
+	single := map[string]func(*chart.Chart){"edits-default-list-items": listItems, "tpl-fails-midway": tplFails, "two-failing": twoFailing, "cross-file-values": crossFile, "capabilities": caps, "multi-kind": multiKind, "dup-define": dupDefine, "notes": notes, "tpl-include": tplInclude, "files": files,
 		"sub-defines": subDefines, "globals": globals, "import-values": importValues}
 	var names []string
 	for n := range single {
@@ -194,6 +202,7 @@ func copyVals(v map[string]any) map[string]any {
 type variant struct {
 	Family  int   `json:"family"`
 	Values  int   `json:"values"`
+	Reuse   bool  `json:"reuse,omitempty"`    // the outputs are those of a SECOND use of the same chart objects and values map
 	TplPerm []int `json:"tpl_perm,omitempty"` // permutation of the root chart's Templates
 	FilPerm []int `json:"file_perm,omitempty"`
 	DepPerm []int `json:"dep_perm,omitempty"`
@@ -235,7 +244,16 @@ func execute(fams []family, v variant, plan map[int]int) (outputs, []vorder.Occ)
 		inst.ClientOnly, inst.DryRun = true, true
 		inst.ReleaseName, inst.Namespace = "r", "default"
 		inst.SubNotes = fam.SubNotes
-		rel, err := inst.Run(build(), copyVals(valueSets[v.Values]))
+		chA, valsA := build(), copyVals(valueSets[v.Values])
+		if v.Reuse {
+			// first use of the very objects the judged run gets (a loaded chart installed twice in one process)
+			first := action.NewInstall(&action.Configuration{})
+			first.ClientOnly, first.DryRun = true, true
+			first.ReleaseName, first.Namespace = "r", "default"
+			first.SubNotes = fam.SubNotes
+			first.Run(chA, valsA)
+		}
+		rel, err := inst.Run(chA, valsA)
 		if err != nil {
 			o.Err = "install: " + err.Error()
 		}
@@ -257,7 +275,13 @@ func execute(fams []family, v variant, plan map[int]int) (outputs, []vorder.Occ)
 			o.Render = "deps: " + err.Error()
 			return
 		}
-		rv, err := chartutil.ToRenderValues(ch, vals, chartutil.ReleaseOptions{Name: "r", Namespace: "default", Revision: 1, IsInstall: true}, chartutil.DefaultCapabilities)
+		ropts := chartutil.ReleaseOptions{Name: "r", Namespace: "default", Revision: 1, IsInstall: true}
+		if v.Reuse {
+			if rv0, err := chartutil.ToRenderValues(ch, vals, ropts, chartutil.DefaultCapabilities); err == nil {
+				engine.Render(ch, rv0)
+			}
+		}
+		rv, err := chartutil.ToRenderValues(ch, vals, ropts, chartutil.DefaultCapabilities)
 		if err != nil {
 			o.Render = "values: " + err.Error()
 			return
@@ -351,6 +375,8 @@ func judge(fams []family, base variant, v variant, plan map[int]int, occs []vord
 			kind = "files-order"
 		case v.DepPerm != nil:
 			kind = "dependency-order"
+		case v.Reuse:
+			kind = "second-use-of-the-same-chart-object"
 		default:
 			kind = "repetition"
 		}
@@ -590,6 +616,12 @@ func runDeterminism(c *core.Ctx) {
 			o1, _ := execute(fams, baseV, nil)
 			c.Eval(1)
 			report(judge(fams, baseV, baseV, nil, occs, o0, o1))
+			// the same chart objects and values map used twice
+			reuseV := variant{Family: fi, Values: vi, Reuse: true}
+			o2, _ := execute(fams, reuseV, nil)
+			c.Eval(1)
+			c.Distinct(fmt.Sprintf("%d|%d|reuse", fi, vi))
+			report(judge(fams, baseV, reuseV, nil, occs, o0, o2))
 			// one deviation at every occurrence, every permutation
 			type dev struct{ occ, perm int }
 			var devs []dev
